@@ -241,7 +241,9 @@ def removeFirst (l : List Rule4) (f : Rule4 → Bool) : List Rule4 :=
 def removeList (l : List Rule4) (d : DomainRule) (p : PathRule) (m : MethodRule) : List Rule4 × Bool :=
   if l.any (sameKey4 d p m) then (removeFirst l (sameKey4 d p m), true) else (l, false)
 
-/-- outcome of `add_tree_rule`; `none` = the `assert_ne!(.., Failed)` panic of `insert` -/
+/-- outcome of `add_tree_rule`. Since fix 13212df `insert` reports `Failed` for a key the
+    trie cannot store (instead of panicking) and the frontend is refused; the result is
+    always `some` (the `Option` is kept for the callers' `panic` arm, now dead). -/
 def addTree (o : Oracle) (t : Node (List Rule3)) (host : Bytes) (p : PathRule) (m : MethodRule) (r : Route) :
     Option (Node (List Rule3) × Bool) :=
   match domainLookupMut o.seg t host false with
@@ -251,7 +253,7 @@ def addTree (o : Oracle) (t : Node (List Rule3)) (host : Bytes) (p : PathRule) (
     else some (t, false)
   | none =>
     let res := insert t host [(p, m, r)]
-    if res.1 = .failed then none else some (res.2, true)
+    some (res.2, res.1 == .ok)
 
 /-- `remove_tree_rule` (always reports success) -/
 def removeTree (o : Oracle) (t : Node (List Rule3)) (host : Bytes) (p : PathRule) (m : MethodRule) :
